@@ -199,6 +199,14 @@ package header
 //@        ite(old(firstOf(req.Header, "X-Forwarded-For")) == "", ite(fwdErr == nil, fwdHost, req.RemoteAddr), old(firstOf(req.Header, "X-Forwarded-For")) + ", " + ite(fwdErr == nil, fwdHost, req.RemoteAddr)))
 //@   ensures[every-other-header-untouched] forall k string :: k != "X-Forwarded-Proto" && k != "X-Forwarded-Host" && k != "X-Forwarded-Url" && k != "X-Forwarded-For" ==>
 //@        has(req.Header, k) == old(has(req.Header, k)) && req.Header[k] == old(req.Header[k])
+//@   at call all of Set after assert[others-untouched-so-far] forall k string :: k != "X-Forwarded-Proto" && k != "X-Forwarded-Host" && k != "X-Forwarded-Url" && k != "X-Forwarded-For" ==>
+//@        has(req.Header, k) == old(has(req.Header, k)) && req.Header[k] == old(req.Header[k])
+//@   at call 1 of Set after assert[proto-settled] (old(firstOf(req.Header, "X-Forwarded-Proto")) == "" ==> single(req.Header, "X-Forwarded-Proto", req.URL.Scheme)) &&
+//@        (old(firstOf(req.Header, "X-Forwarded-Proto")) != "" ==> has(req.Header, "X-Forwarded-Proto") && req.Header["X-Forwarded-Proto"] == old(req.Header["X-Forwarded-Proto"]))
+//@   at call 2 of Set after assert[proto-and-host-settled] (old(firstOf(req.Header, "X-Forwarded-Proto")) == "" ==> single(req.Header, "X-Forwarded-Proto", req.URL.Scheme)) &&
+//@        (old(firstOf(req.Header, "X-Forwarded-Proto")) != "" ==> has(req.Header, "X-Forwarded-Proto") && req.Header["X-Forwarded-Proto"] == old(req.Header["X-Forwarded-Proto"])) &&
+//@        (old(firstOf(req.Header, "X-Forwarded-Host")) == "" ==> single(req.Header, "X-Forwarded-Host", req.Host)) &&
+//@        (old(firstOf(req.Header, "X-Forwarded-Host")) != "" ==> has(req.Header, "X-Forwarded-Host") && req.Header["X-Forwarded-Host"] == old(req.Header["X-Forwarded-Host"]))
 
 // ---------------------------------------------------------------------------------------------
 // Request framing. tr(v, j) is the trimmed j-th comma separated part of a header value.
